@@ -245,6 +245,24 @@ def run(ctx):
               "operands of unrelated classes; str/bytes.__contains__ and iteration of non-iterables raise TypeError; "
               "ipaddress.ip_address/ip_network raise ValueError and socket.inet_aton raises TypeError for foreign objects")
 
+    # ------------------------------------------------------------------ R8.9 one sentinel object
+    # the helpers recognise a missing field by IDENTITY (`value is NONE_OBJECT`): there can be only one object of the sentinel class in
+    # the package, wherever the class lives. Decided before anything else - with two sentinels no other statement about them holds.
+    ctx.rule("R8.9", "the sentinel class is instantiated exactly once in the whole package: helpers test `is NONE_OBJECT`, so a second instance (a copy of the "
+                     "line left behind when the class moves to another module) is a missing field that no helper recognises")
+    inst = []
+    for mname, m in sorted(prog.modules.items()):
+        for c in ast.walk(m.tree):
+            if isinstance(c, ast.Call) and not c.args and not c.keywords and isinstance(c.func, (ast.Name, ast.Attribute)) and norm(c.func).split(".")[-1] == "NoneObject":
+                ctx.use(m)
+                inst.append((mname, c))
+    ctx.floor("R8.9", "instantiations of the sentinel class in the package", len(inst), 1)
+    ctx.check(len(inst) == 1, "R8.9", "NoneObject():instances", f"the sentinel class is instantiated {len(inst)} times ({', '.join(f'{mn}:{c.lineno}' for mn, c in inst)}): values "
+              "obtained through one instance fail the `is NONE_OBJECT` tests written against the other - field_regex & co. then run on the sentinel and raise", inst[-1][1] if inst else sel.tree,
+              "one NONE_OBJECT = NoneObject() for the package", key="R8.9:NoneObject:instantiated-more-than-once")
+    if len(inst) != 1:
+        return
+
     # ------------------------------------------------------------------ R8.1
     ctx.rule("R8.1", "both engines obtain a missing field through getattr(<record>, <name>, SENTINEL) on every path")
     sent_name, sent_ref = find_sentinel(ctx)
